@@ -88,7 +88,7 @@ func TestProp_C01_permutation(t *testing.T) {
 		k := col.NewCase()
 		ctx := vt.Ctx()
 		tree, nodes := genTree(t, rapid.IntRange(8, 60).Draw(t, "size"))
-		order := rapid.Permutation(intsTo(len(nodes) - 1)).Draw(t, "order")
+		order := rapid.Permutation(intsTo(len(nodes)-1)).Draw(t, "order")
 		repo := newPlainRepo()
 		pending := make([]*model.Node, 0, len(order))
 		for _, i := range order {
